@@ -499,6 +499,12 @@ func main() {
 	rl := seqmc.Explore(r, seqmc.Config{Name: "list", New: func() seqmc.Sys { return newLH(H) }})
 	rr := seqmc.Explore(r, seqmc.Config{Name: "ring", New: func() seqmc.Sys { return &rh{N: N} }})
 	famCalls := bigLists(r) + churnList(r)
+	ringSizes := []int{255, 256, 257, 1023, 1024, 1025, 4095, 4096, 4097, 8191, 8192, 8193, 16385, 65537, 70001}
+	if r.Thorough() {
+		ringSizes = append(ringSizes, 1<<17+1, 1<<20+1, 3000001)
+	}
+	famCalls += ringLadder(r, ringSizes)
+	r.Set("ring_ladder_sizes", ringSizes)
 	r.Set("large_size_family_calls", famCalls)
 	if !rl.Exhaustive || !rr.Exhaustive {
 		r.MarkCapped()
@@ -509,7 +515,7 @@ func main() {
 	r.Set("max_depth", max(rl.MaxDepth, rr.MaxDepth))
 	r.Set("list", fmt.Sprintf("handles=%d states=%d transitions=%d depth=%d fixpoint=%v", H, rl.States, rl.Transitions, rl.MaxDepth, rl.Exhaustive))
 	r.Set("ring", fmt.Sprintf("cells=%d states=%d transitions=%d depth=%d fixpoint=%v", N, rr.States, rr.Transitions, rr.MaxDepth, rr.Exhaustive))
-	r.Set("rule", "explicit-state BFS to fixpoint, the fork and the standard library driven in lock-step through parallel handle tables. Lists: a zero-value list and a New() list, a table of H element handles (live in either list, removed, zombie after Init; removed handles can be forgotten so histories are unbounded), every operation over every handle / handle pair / list pair incl. self; compared after every call: returned handle, Len, Front/Back, forward and backward traversal with identities, Next/Prev/Value of every handle. Rings: up to N cells from NewRing(0..3) and zero-value Rings, the nil ring; Next, Prev, Move(-3..3), Link for every pair incl. r==s and nil, Unlink(-1..N+1), Len, Do PLUS deterministic families beyond the exhaustive bound (large sizes, every single/double removal from trees built in 7 orders, long one-instance churn histories): see the *_family_* counters")
+	r.Set("rule", "explicit-state BFS to fixpoint, the fork and the standard library driven in lock-step through parallel handle tables. Lists: a zero-value list and a New() list, a table of H element handles (live in either list, removed, zombie after Init; removed handles can be forgotten so histories are unbounded), every operation over every handle / handle pair / list pair incl. self; compared after every call: returned handle, Len, Front/Back, forward and backward traversal with identities, Next/Prev/Value of every handle. Rings: up to N cells from NewRing(0..3) and zero-value Rings, the nil ring; Next, Prev, Move(-3..3), Link for every pair incl. r==s and nil, Unlink(-1..N+1), Len, Do; scripted list histories up to 4097 elements and a ring ladder (255 .. 70001 cells, thorough to 3*10^6: full traversals both ways, sampled Move, Unlink/Link around every power of two) PLUS deterministic families beyond the exhaustive bound (large sizes, every single/double removal from trees built in 7 orders, long one-instance churn histories): see the *_family_* counters")
 	r.Finish()
 }
 
@@ -520,7 +526,7 @@ func bigLists(r *ev.Run) int {
 	fail := func(sig, format string, a ...any) {
 		r.Report(ev.Violation{Sig: "family|" + sig, Msg: fmt.Sprintf(format, a...), Replay: map[string]any{"family": "big-lists"}})
 	}
-	for _, n := range []int{17, 33, 64, 120} {
+	for _, n := range []int{17, 33, 64, 120, 1025, 4097} {
 		l, rl := lists.New[int](), clist.New()
 		var he []*lists.Element[int]
 		var hr []*clist.Element
@@ -646,6 +652,106 @@ func bigLists(r *ev.Run) int {
 					break
 				}
 			}
+		}
+	}
+	return calls
+}
+
+// ringLadder: rings of thousands to millions of cells (an allocation or linking strategy that changes
+// above a size shows only here). One complete forward and one complete backward traversal, Len, Move by
+// sampled distances in both directions, and Unlink/Link of a few cells at sampled positions (around every
+// power of two), all in lock-step with container/ring. O(n) per size.
+func ringLadder(r *ev.Run, sizes []int) int {
+	calls := 0
+	for _, n := range sizes {
+		fail := func(format string, a ...any) {
+			r.Report(ev.Violation{Sig: "family|ring", Msg: fmt.Sprintf("ring of %d cells: ", n) + fmt.Sprintf(format, a...), Replay: map[string]any{"family": "ring-ladder", "n": n}})
+		}
+		a, ra := lists.NewRing[int](n), cring.New(n)
+		p, rp := a, ra
+		for i := 0; i < n; i++ {
+			if p == nil {
+				fail("Next() is nil after %d steps", i)
+				break
+			}
+			p.Value, rp.Value = i, i
+			p, rp = p.Next(), rp.Next()
+		}
+		calls += n
+		if p != a {
+			fail("%d x Next() does not lead back to the start", n)
+			continue
+		}
+		if a.Len() != ra.Len() {
+			fail("Len %d vs %d", a.Len(), ra.Len())
+			continue
+		}
+		ok := true
+		p, rp = a, ra
+		for i := 0; i < n && ok; i++ {
+			p, rp = p.Prev(), rp.Prev()
+			if p == nil || p.Value != rp.Value.(int) {
+				fail("backward traversal differs from container/ring after %d x Prev()", i+1)
+				ok = false
+			}
+		}
+		calls += n
+		if !ok {
+			continue
+		}
+		if p != a {
+			fail("%d x Prev() does not lead back to the start", n)
+			continue
+		}
+		// sampled positions: around every power of two, thirds, the ends
+		pos := []int{0, 1, n / 3, n / 2, n - 2, n - 1}
+		for k := 8; k < n; k *= 2 {
+			pos = append(pos, k-1, k, k+1)
+		}
+		for _, k := range pos {
+			if k < 0 || k >= n {
+				continue
+			}
+			calls += 2
+			x, rx := a.Move(k), ra.Move(k)
+			if x == nil || x.Value != rx.Value.(int) {
+				fail("Move(%d) differs", k)
+				ok = false
+				break
+			}
+			y, ry := x.Move(-k), rx.Move(-k)
+			if y != a || ry != ra {
+				fail("Move(%d).Move(-%d) does not return to the start", k, k)
+				ok = false
+				break
+			}
+			// cut 3 cells after position k out and splice them back in
+			cut, rcut := x.Unlink(3), rx.Unlink(3)
+			if cut.Len() != rcut.Len() || a.Len() != ra.Len() {
+				fail("Unlink(3) at position %d: lengths %d/%d vs %d/%d", k, cut.Len(), a.Len(), rcut.Len(), ra.Len())
+				ok = false
+				break
+			}
+			if cut != nil {
+				x.Link(cut)
+				rx.Link(rcut)
+			}
+			// neighbours around the seam, both directions
+			q, rq := x.Move(-2), rx.Move(-2)
+			for i := 0; i < 8; i++ {
+				if q == nil || q.Value != rq.Value.(int) || q.Prev() == nil || q.Prev().Value != rq.Prev().Value.(int) {
+					fail("after Unlink(3)+Link at position %d the cells around the seam differ from container/ring", k)
+					ok = false
+					break
+				}
+				q, rq = q.Next(), rq.Next()
+			}
+			if !ok {
+				break
+			}
+		}
+		if ok && a.Len() != ra.Len() {
+			fail("Len %d vs %d after the splices", a.Len(), ra.Len())
 		}
 	}
 	return calls
